@@ -533,6 +533,11 @@ func ruleNotIgnored(w *World, r *Report, pf *patchFamily, scope func(*ssa.Functi
 			if !written && len(cut) > 0 && cutsOff(fn, cut, ret.Block()) {
 				written = true
 			}
+			if !written && mergeEmptyObjectNoOp(w, pf, fn, ret) {
+				r.Ok(rule, fmt.Sprintf("%s:returns-input#%d", fnName(fn), k), w.Pos(ret.Pos()),
+					"the node is handed back unchanged only under merge strategy and only where the hunk's value is known to be an empty object: merging {} into an object changes nothing (RFC 7386, MergePatch(T, {}) = T)")
+				continue
+			}
 			if why, ok := libPatchExempt[fmt.Sprintf("%s:returns-input#%d", fnName(fn), k)]; ok && pf.tag == "lib" {
 				r.Ok(rule, fmt.Sprintf("%s:returns-input#%d", fnName(fn), k), w.Pos(ret.Pos()), "exempt by name: "+why)
 				continue
@@ -550,4 +555,55 @@ func ruleNotIgnored(w *World, r *Report, pf *patchFamily, scope func(*ssa.Functi
 var libPatchExempt = map[string]string{
 	"lib.(jsonSet).patch→invoke.patch":    "the keyed member of a v1 set is always a jsonObject (a map): its patch mutates it in place and returns the same map, so dropping the result loses nothing on v1's own diffs; the dropped error only matters for foreign patches, which C17 does not quantify over (the v2 twin is known finding K3 of C08)",
 	"lib.(jsonSet).patch:returns-input#1": "same site: the member object was patched in place by the nested call",
+}
+
+// mergeEmptyObjectNoOp: the return lies behind (a) an edge on which the
+// strategy is known to be merge and (b) the true edge of `len(x) == 0` where x
+// is the hunk's new value asserted (comma-ok or plain) to a map type — the one
+// hunk whose effect on an object is "no change".
+func mergeEmptyObjectNoOp(w *World, pf *patchFamily, fn *ssa.Function, ret *ssa.Return) bool {
+	newP := pf.roleParam(fn, "newValues")
+	if newP == nil || pf.roleParam(fn, "strategy") == nil {
+		return false
+	}
+	x := &expectCtx{w: w, pf: pf, fn: fn, d: NewDeriv(w, fn), ea: newErrAnalysis(w), lps: loopsOf(fn)}
+	behindMerge := false
+	for e := range x.mergeEdges() {
+		if edgeDominates(e, ret.Block()) {
+			behindMerge = true
+		}
+	}
+	if !behindMerge {
+		return false
+	}
+	for _, b := range fn.Blocks {
+		cond, tE, _, ok := branchEdges(b)
+		if !ok || !edgeDominates(tE, ret.Block()) {
+			continue
+		}
+		bo, ok := cond.(*ssa.BinOp)
+		if !ok || bo.Op != token.EQL {
+			continue
+		}
+		k, okK := constInt(bo.Y)
+		c, okL := isBuiltinCall(strip(bo.X), "len")
+		if !okK || k != 0 || !okL {
+			continue
+		}
+		v := strip(c.Call.Args[0])
+		if ex, ok := v.(*ssa.Extract); ok && ex.Index == 0 {
+			v = ex.Tuple
+		}
+		ta, ok := v.(*ssa.TypeAssert)
+		if !ok {
+			continue
+		}
+		if _, isMap := ta.AssertedType.Underlying().(*types.Map); !isMap {
+			continue
+		}
+		if x.d.HasRoot(ta.X, newP) {
+			return true
+		}
+	}
+	return false
 }
